@@ -46,6 +46,8 @@ typedef struct { const vp_format_t* f; uint8_t hdr[64]; } shared_pdu_t;
 static shared_pdu_t g_shared[NSHARED];
 static uint8_t g_shared_vss[NSHARED][64];   /* reference-encoded uint32 scalar, static id */
 static uint32_t g_shared_vss_id[NSHARED], g_shared_vss_val[NSHARED];
+/* shared read-only VSS messages carrying arrays of 64..200 bytes of multi-byte elements (a received frame decoded by several threads) */
+static uint8_t g_shared_arr[NSHARED][256]; static uint64_t g_shared_arr_el[NSHARED][32]; static uint32_t g_shared_arr_n[NSHARED]; static uint8_t g_shared_arr_code[NSHARED];
 
 static uint32_t g_ticket;
 static uint8_t* g_order;
@@ -192,6 +194,20 @@ static void run_script(worker_t* w)
             vp_tr_u64(c, od.data_uint32);
             if (od.data_uint32 != g_shared_vss_val[i] || op2.vss_static_id_path != g_shared_vss_id[i]) viol_val(w, "shared-vss-decode", "uint32", g_shared_vss_val[i], od.data_uint32);
             w->shared_reads += 2;
+            {   /* array message of the pool: decode into a private buffer */
+                const vss_dt_t* adt = vssref_datatype(g_shared_arr_code[i]);
+                VssData_t ad; uint64_t ab[32]; VssDataUint64Array_t aarr; memset(&ad, 0, sizeof ad);
+                aarr.data_length = 0; aarr.data = ab; ad.data_uint64_array = &aarr;
+                vp_call(c);
+                Avtp_Vss_GetVssData((Avtp_Vss_t*)g_shared_arr[i], &ad);
+                c->evals++;
+                for (uint32_t e = 0; e < g_shared_arr_n[i]; e++) {
+                    uint64_t got = adt->esize == 2 ? ((uint16_t*)ab)[e] : adt->esize == 4 ? ((uint32_t*)ab)[e] : ab[e];
+                    if (e < 2) vp_tr_u64(c, got);
+                    if (got != g_shared_arr_el[i][e]) { viol_val(w, "shared-vss-array-decode", adt->name, g_shared_arr_el[i][e], got); break; }
+                }
+                w->shared_reads++;
+            }
         }
     }
 }
@@ -257,6 +273,18 @@ int main(void)
         g_shared_vss_id[i] = (uint32_t)vp_rng_next(&c->rng); g_shared_vss_val[i] = (uint32_t)vp_rng_next(&c->rng);
         bf_set(g_shared_vss[i], 0, 7, 0x42); bf_set(g_shared_vss[i], 19, 2, 1); bf_set(g_shared_vss[i], 24, 8, 0x04);
         vssref_put_be(g_shared_vss[i] + 12, 4, g_shared_vss_id[i]); vssref_put_be(g_shared_vss[i] + 16, 4, g_shared_vss_val[i]);
+        {
+            static const uint8_t acodes[] = { 0x82, 0x84, 0x86, 0x83, 0x85, 0x87, 0x89, 0x8A };
+            const vss_dt_t* adt = vssref_datatype(acodes[i % 8]);
+            uint32_t n = (64 + 8 * (i % 17)) / adt->esize; if (n > 32) n = 32; if (n * adt->esize < 64) n = 64 / adt->esize;
+            uint64_t em = adt->esize >= 8 ? ~(uint64_t)0 : (((uint64_t)1 << (8 * adt->esize)) - 1);
+            for (uint32_t e = 0; e < n; e++) g_shared_arr_el[i][e] = vp_rng_next(&c->rng) & em;
+            g_shared_arr_n[i] = n; g_shared_arr_code[i] = adt->code;
+            memset(g_shared_arr[i], 0, 256);
+            bf_set(g_shared_arr[i], 0, 7, 0x42); bf_set(g_shared_arr[i], 19, 2, 1); bf_set(g_shared_arr[i], 24, 8, adt->code);
+            vssref_put_be(g_shared_arr[i] + 12, 4, g_shared_vss_id[i]);
+            vssref_encode_value(g_shared_arr[i] + 16, adt, g_shared_arr_el[i], n, 0, 0);
+        }
     }
     for (uint32_t t = 0; t < MAXT; t++) {
         g_w[t].mem = vp_map(ARENA); g_w[t].shadow = vp_map(ARENA); g_ref[t].mem = vp_map(ARENA); g_ref[t].shadow = vp_map(ARENA);
